@@ -480,9 +480,11 @@ Qed.
 (* NOT repaired (known finding C20/body-over-1023): CreateCommandData does not refuse a body that does
    not fit the 10-bit length field; Header.Encode ORs the unmasked length into the attribute word, so a
    1024-byte body sets the encryption bit and announces length 0: the frame is rejected by the decoder *)
-Definition ex_long_frame : list N := snd (create_command (sim0 V2013 [1]) 0x0900 (repeat 0 1024)).
-Lemma refuted_body_over_1023 : decode ex_long_frame = Err E_BODY_LEN.
-Proof. vm_compute. reflexivity. Qed.
+Lemma refuted_body_over_1023 :
+  length (repeat (0 : N) 1024) = 1024%nat /\
+  decode (snd (create_command (sim0 V2013 [1]) 0x0900 (repeat 0 1024))) = Err E_BODY_LEN /\
+  decode (snd (create_command (sim0 V2019 [1; 3; 8]) 0x0200 (repeat 255 1024))) = Err E_BODY_LEN.
+Proof. repeat split; vm_compute; reflexivity. Qed.
 
 (* a 2019 authentication too short for its fixed fields, generated by the simulator itself: no reply
    predicted, none written (instance of expected_no_reply_too_short) *)
